@@ -29,6 +29,18 @@ def handle : Handler := fun op args impl =>
     let exp := "ok " ++ toString (lenOf rows) ++ " " ++ encRows firsts ++ " " ++
       strJoin (groups.map fun grp => "+".intercalate grp) ++ " idem=1"
     some ⟨m, verdictOf (impl == exp) "dedup-spec"⟩
+  | "dedupbag", [alpha, rows, g] => do
+    -- the same on a sequence set: rows of any lengths (`goalign dedup --unaligned`)
+    let alpha ← alpha.toNat?
+    let rows ← decRows rows
+    let g := decBool g
+    let b0 := (addAllStop (newBag alpha) rows).1
+    let r := deduplicate g b0
+    let m := "ok " ++ encRows (pairs r.1) ++ " " ++ strJoin (r.2.2.map fun grp => "+".intercalate grp) ++ " idem=1"
+    let key := dedupKey b0.alphabet g
+    let exp := "ok " ++ encRows (Spec.firstOccs key rows) ++ " " ++
+      strJoin ((Spec.groupsOf key rows).map fun grp => "+".intercalate grp) ++ " idem=1"
+    some ⟨m, verdictOf (impl == exp) "dedup-spec"⟩
   | "compress", [_, rows] => do
     let rows ← decRows rows
     let L := lenOf rows
